@@ -386,7 +386,10 @@ def inherit_props(prop, P, results):
 
     def applies(key):
         if only is not None:
-            return bool(key) and re.search(only, key) is not None
+            if not (bool(key) and re.search(only, key) is not None):
+                return False
+            if dialect is None:
+                return True
         if not key:
             return True
         k = key[7:] if key.startswith("canary:") else key
